@@ -171,6 +171,9 @@ def emit_git(a, b, hs, kind="change", old_mode=None, new_mode=None, index=True):
     if hs:
         if index:
             out += b"index 1111111..2222222 100644\n"
-        out += ("--- %s\n+++ %s\n" % ("/dev/null" if kind == "add" else "a/" + a, "/dev/null" if kind == "delete" else "b/" + b)).encode("latin-1")
+        # like git, end a name that contains a blank with a tab
+        na = "/dev/null" if kind == "add" else "a/" + a + ("\t" if " " in a else "")
+        nb = "/dev/null" if kind == "delete" else "b/" + b + ("\t" if " " in b else "")
+        out += ("--- %s\n+++ %s\n" % (na, nb)).encode("latin-1")
         out += emit_unified_hunks(hs)
     return out
